@@ -310,6 +310,9 @@ class _BearerAuth(requests.auth.AuthBase):
         self._token = token
 
     def __call__(self, r):
+        # The token may have expired since this object was created (a store can live
+        # for hours), so check it again before it is sent to the server
+        decode_jwt(self._token)
         # Check if token authorises URL even before hitting server for better reporting
         path = urllib.parse.urlparse(r.url).path.lstrip('/')
         valid_prefixes = self._claims['prefix']
